@@ -6,11 +6,17 @@ rc1=0
 case " $* " in *" --replay "*) ;; *)
   ov=(); [ -n "$VERIF_EXTRA_OVERLAY" ] && ov=(-overlay "$VERIF_EXTRA_OVERLAY")   # seeded mutants without touching /repo
   (cd "$VERIF_ROOT" && go build "${ov[@]}" -o "$WORK/bin/c09tls" ./checks/c09tls) || exit 2
-  rm -f "$VERIF_ROOT/evidence/C09.tls.json"
+  rm -f "$VERIF_ROOT/evidence/C09.tls.json" "$VERIF_ROOT/evidence/C09.mgr.json"
   VERIF_EVIDENCE_SUFFIX=.tls "$WORK/bin/c09tls" "$@"; rc1=$?
+  # registry-mode part: calls through an endpoint manager fed by a registry (blocked endpoints, probes, registry
+  # changes): the long event histories of checks/c15 under every schedule with one deviation, judged for
+  # termination only (every call returns, within deadline + dial timeout)
+  E1_SRC=c15 build_e1 c09mgr $TARS_E1_ARGS
+  C15_AS=C09 C15_ONLY="sched1 " E1_FOLD=.tls VERIF_EVIDENCE_SUFFIX=.mgr "$WORK/bin/c09mgr" "$@"; rc3=$?
+  [ $rc3 -gt $rc1 ] && rc1=$rc3
   ;;
 esac
-E1_FOLD=.tls "$WORK/bin/c09" "$@"; rc2=$?
-rm -f "$VERIF_ROOT/evidence/C09.tls.json"
+E1_FOLD=.mgr "$WORK/bin/c09" "$@"; rc2=$?
+rm -f "$VERIF_ROOT/evidence/C09.tls.json" "$VERIF_ROOT/evidence/C09.mgr.json"
 [ $rc1 -gt $rc2 ] && exit $rc1
 exit $rc2
